@@ -125,6 +125,10 @@ func (w *walker) walk(v reflect.Value) string {
 	switch t {
 	case timeType:
 		tm := v.Interface().(time.Time)
+		if loc := tm.Location(); loc != time.UTC && loc != time.Local {
+			// the format expresses only UTC and local time: the encoder sees the instant in local time
+			tm = tm.Local()
+		}
 		y, mo, d := tm.Date()
 		h, mi, s := tm.Clock()
 		utc := 0
